@@ -57,7 +57,7 @@ def interval_table(bin_type, t, t2, neg_inf, pos_inf):
 
 def _register_lean():
     from pyvc import leancheck
-    leancheck.register(("C05", "C06", "C04", "C08", "C11"), ["R1", "R2", "R3", "R4", "R5", "R6", "R7", "R8", "R9", "R10"])
+    leancheck.register(("C05", "C06", "C04", "C08", "C11", "C01", "C02", "C03", "C14"), ["R1", "R2", "R3", "R4", "R5", "R6", "R7", "R8", "R9", "R10", "R11", "R12"])
 
 
 _register_lean()
